@@ -550,8 +550,41 @@ def oracle_c08(run):
             legit = {names.get(e, e) for e in S.emitted} | {c.name for c in S.ins + S.cons}
             ghosts = sorted({g.split(" ")[0].split("[")[0] for g in got} - legit)
             sym = "annotation-names-abandoned-requirer" if ghosts else "annotation-differs"
+            if ghosts:
+                # an abandoned requirer is left behind by an invalidation, not by an overwritten label: the region is the
+                # run's; without any recorded conflict handling it is a cycle of projects (or a project requiring itself)
+                # that reference counting does not collect once its last outside requirer is gone
+                reg = region
+                if reg == "clean" and set(ghosts) <= _uncollected_cycles(run, names):
+                    reg = "uncollected-cycle"
             fails.append(("C08/%s/%s" % (sym, reg), {"pin": k, "printed": got, "expected": sorted(exp), "not_in_solution": ghosts}))
     return fails
+
+
+def _uncollected_cycles(run, names):
+    """printed names of solved nodes that are not reachable from the roots and sit on a dependency cycle"""
+    g = run.graph
+    reach, todo = set(), list(run.roots)
+    while todo:
+        n = todo.pop()
+        if id(n) in reach:
+            continue
+        reach.add(id(n))
+        todo.extend(n.dependencies)
+    out = set()
+    for k, n in g.nodes.items():
+        if id(n) in reach or n.metadata is None:
+            continue
+        seen, todo = set(), list(n.dependencies)
+        while todo:
+            m = todo.pop()
+            if id(m) in seen:
+                continue
+            seen.add(id(m))
+            todo.extend(m.dependencies)
+        if id(n) in seen:
+            out.add(names.get(k, k))
+    return out
 
 
 def case_split(edges):
